@@ -1,5 +1,481 @@
-import FerrousSpec.Model.Groups
+/-
+  C16 — consumer groups: exactly-once delivery under `>`, pending-list accounting, group administration.
+
+  Property theorems only; helper lemmas live in FerrousSpec/Proofs/Groups*.lean.
+  Model: FerrousSpec/Model/Groups.lean — `Code.*` transliterates src/storage/consumer_groups.rs and the group
+  entry points of src/storage/stream.rs with ALL representations the Rust keeps (entries_by_id,
+  entries_by_consumer, per-consumer pending_count, total_pending, min/max, last_delivered_id) and its quirks
+  behind the switches of `Quirks` (`Quirks.pinned` = the tree as it is, `Quirks.fixed` = all four repairs);
+  `Spec.*` is the property: a cursor and a finite map id → owner.
+  Tie to the code: harness/src/bin/impl_grp.rs drives the real `Stream`/`ConsumerGroup` and compares
+  `verif_dump()` after every operation with `Code`; lib/c16.py evaluates `Spec.gstep` and `Agree` on the
+  implementation's own dumps.
+-/
+import FerrousSpec.Proofs.GroupsHistory
 namespace Ferrous.C16
 open Ferrous.Grp
-theorem placeholder : agreeB (Code.newGroup Quirks.pinned (1, 0)) = true := by decide
+
+/-! ### 1. The representations always describe the same pending set -/
+
+/-- A freshly created group agrees (whatever the start id and whichever repairs are present). -/
+theorem representations_agree_new (q : Quirks) (start : Id) : Agree (Code.newGroup q start) :=
+  (good_newGroup q start).agree
+
+/-- XACK (any id list: repeats, unknown ids) preserves agreement of `entries_by_id`, `entries_by_consumer`,
+    `pending_count`, `total_pending` and `min/max` — for EVERY agreeing state. -/
+theorem representations_agree_ack (g : Group) (h : Agree g) (ids : List Id) :
+    Agree (Code.acknowledge g ids).1 := agree_acknowledge h ids
+
+/-- XCLAIM (any claimer, any id list, idle test passing or not) preserves agreement — for every agreeing state. -/
+theorem representations_agree_claim (g : Group) (h : Agree g) (c : Name) (elig : Bool) (ids : List Id) :
+    Agree (Code.claim g c elig ids).1 := agree_claim h c elig ids
+
+/-- XGROUP DELCONSUMER preserves agreement — for every agreeing state. -/
+theorem representations_agree_delete_consumer (g : Group) (h : Agree g) (c : Name) :
+    Agree (Code.deleteConsumer g c).1 := agree_deleteConsumer h c
+
+/-- XGROUP CREATECONSUMER and SETID preserve agreement. -/
+theorem representations_agree_admin (g : Group) (h : Agree g) (c : Name) (id : Id) :
+    Agree (Code.createConsumer g c) ∧ Agree (Code.setId g id) :=
+  ⟨agree_createConsumer h c, agree_setLast h id⟩
+
+/-- A delivery (`add_pending`) of ids none of which is already pending preserves agreement. -/
+theorem representations_agree_deliver_fresh (g : Group) (h : Agree g) (c : Name) (ids : List Id)
+    (hnd : ids.Nodup) (hfresh : ∀ id ∈ ids, ∀ e ∈ g.byId, e.id ≠ id) :
+    Agree (Code.addPending g c ids) := agree_addPending h c hnd hfresh
+
+/-- Whole histories: starting from a new group over any strictly sorted stream, after ANY sequence of XADD, XDEL,
+    XREADGROUP `>` (any consumer, any COUNT, with or without NOACK), XACK, XCLAIM, XAUTOCLAIM, DELCONSUMER,
+    CREATECONSUMER, XPENDING — everything except the two re-delivering operations, XGROUP SETID and (on the
+    pinned tree) XREADGROUP with an explicit id — the representations agree and no pending id lies beyond the
+    cursor.  By induction over the operation list. -/
+theorem representations_agree (q : Quirks) (stream : List Id) (lastId start : Id) (ops : List HOp)
+    (hs : IdSorted stream) (hb : ∀ x ∈ stream, idLe x lastId = true)
+    (hops : ∀ op ∈ ops, op.plainFor q = true) :
+    Agree (Code.run q (Code.init q stream lastId start) ops).grp ∧
+    ∀ e ∈ (Code.run q (Code.init q stream lastId start) ops).grp.byId,
+      idLe e.id (Code.run q (Code.init q stream lastId start) ops).grp.lastDelivered = true := by
+  have := good_run q ops (σ := Code.init q stream lastId start) ⟨hs, hb⟩ (good_newGroup q start)
+    (fun op hop => by
+      have h := hops op hop
+      cases op with
+      | add _ => rfl
+      | del _ => rfl
+      | g op => exact h)
+  exact ⟨this.agree, this.behind⟩
+
+/-- What agreement means for the observable counters: the consumer vectors are a duplicate-free cover of the
+    keys of `entries_by_id` (same length in total) and each `pending_count` is the number of rows its consumer owns. -/
+theorem representations_agree_counts (g : Group) (h : Agree g) :
+    g.totalPending = g.byId.length ∧
+    (∀ c l, alGet c g.byConsumer = some l → l.length = (g.byId.filter (fun e => e.owner == c)).length) ∧
+    (∀ c n, alGet c g.consumers = some n → n = (g.byId.filter (fun e => e.owner == c)).length) := by
+  refine ⟨h.total, fun c l hl => h.toAgreeCore.vec_length hl, ?_⟩
+  intro c n hc
+  have hr := mem_of_alGet hc
+  rcases h.cnt₂ _ hr with h0 | ⟨p, hp, hpo⟩
+  · simp only at h0
+    subst h0
+    symm
+    rw [List.length_eq_zero_iff, List.filter_eq_nil_iff]
+    intro e he ho
+    obtain ⟨l, hl, hidl, _, hcn⟩ := h.toAgreeCore.owner_facts he
+    have ho' : e.owner = c := by simpa using ho
+    rw [ho', hc] at hcn
+    simp only [Option.some.injEq] at hcn
+    have := List.length_pos_of_mem hidl
+    omega
+  · simp only at hpo
+    have hl : alGet c g.byConsumer = some p.2 := alGet_of_mem h.bcKeys (by rw [← hpo]; exact hp)
+    obtain ⟨r, hr', hro, hrn⟩ := h.cnt₁ p hp
+    have : r = (c, n) := pair_unique h.csKeys hr' hr (by rw [hro, hpo])
+    subst this
+    simp only at hrn
+    rw [hrn]; exact h.toAgreeCore.vec_length hl
+
+/-- WITNESS (row 21): delivering an id that is already pending breaks the agreement.  State after
+    `XADD 1-0; XGROUP CREATE g 0; XREADGROUP g c1 >` agrees; re-delivering 1-0 to c2 (what XREADGROUP with an
+    explicit id, or `>` after SETID 0, does) leaves 1-0 in c1's vector, total_pending 2 for one row. -/
+theorem representations_agree_fails_on_redelivery :
+    ∃ g : Group, Agree g ∧ ¬ Agree (Code.addPending g 2 [(1, 0)]) := by
+  refine ⟨Code.addPending (Code.newGroup Quirks.pinned (0, 0)) 1 [(1, 0)], ?_, ?_⟩
+  · exact agree_addPending (good_newGroup _ _).agree 1 (by simp) (by intro id _ e he; cases he)
+  · intro h
+    exact absurd h.total (by decide)
+
+/-- The executable check used by the driver on the implementation's dumps accepts exactly the agreeing states. -/
+theorem agreeB_iff (g : Group) : agreeB g = true ↔ Agree g := by
+  simp only [agreeB, agreeClauses, List.all_cons, List.all_nil, Bool.and_true, Bool.and_eq_true,
+    decide_eq_true_eq]
+  constructor
+  · rintro ⟨h1, h2, h3, h4, h5, h6, h7, h8, h9, h10, h11⟩
+    exact { sorted := h1, bcKeys := h2, csKeys := h3, lists := h4, own₁ := h5, own₂ := h6, cnt₁ := h7, cnt₂ := h8,
+            bmin := h9, bmax := h10, total := h11 }
+  · intro h
+    exact ⟨h.sorted, h.bcKeys, h.csKeys, h.lists, h.own₁, h.own₂, h.cnt₁, h.cnt₂, h.bmin, h.bmax, h.total⟩
+
+/-! ### 2. Exactly-once delivery under `>` -/
+
+/-- THE PROPERTY (prescribed behaviour): for a group created at `start` over any strictly sorted stream, after ANY
+    history of XADD / XDEL / XREADGROUP `>` by any consumers with any COUNT, with or without NOACK / explicit-id
+    history reads / XACK / XCLAIM / DELCONSUMER (everything but SETID, which re-positions the group):
+    (1) the ids delivered under `>`, in delivery order over the whole history, are strictly increasing — so no
+        entry is delivered twice, hence to exactly one consumer, and in id order;
+    (2) every delivered id lies after the start position;
+    (3) nothing is skipped: an entry still in the stream after the start position and not beyond the cursor has
+        been delivered;
+    (4) one more unbounded read delivers every entry of the stream after the start position that was not. -/
+theorem exactly_once (stream : List Id) (lastId start : Id) (ops : List HOp)
+    (hs : IdSorted stream) (hb : ∀ x ∈ stream, idLe x lastId = true)
+    (hops : ∀ op ∈ ops, op.noSetId = true) :
+    let σ := Spec.run (Spec.init stream lastId start) ops
+    IdSorted (σ.log.map (·.1)) ∧
+    (∀ d ∈ σ.log, idLt start d.1 = true) ∧
+    (∀ x ∈ σ.stream, idLt start x = true → idLe x σ.grp.cursor = true → x ∈ σ.log.map (·.1)) ∧
+    (∀ c, ∀ x ∈ σ.stream, idLt start x = true →
+        x ∈ (Spec.hstep σ (.g (.read c none none false))).log.map (·.1)) := by
+  intro σ
+  have h : OnceInv start σ := onceInv_run ops (onceInv_init start hs hb) hops
+  refine ⟨h.logSorted, h.logAfter, h.noSkip, ?_⟩
+  intro c x hx hsx
+  have h' := onceInv_hstep h (.g (.read c none none false)) rfl
+  refine h'.noSkip x hx hsx ?_
+  -- after an unbounded read the cursor is at or beyond every entry
+  show idLe x ((rangeAfter σ.stream σ.grp.cursor none).getLast?.getD σ.grp.cursor) = true
+  rcases idLt_total σ.grp.cursor x with hlt | heq | hgt
+  · have hmem : x ∈ rangeAfter σ.stream σ.grp.cursor none := by
+      rw [rangeAfter_none]; simp [hx, hlt]
+    cases hl : (rangeAfter σ.stream σ.grp.cursor none).getLast? with
+    | none => rw [List.getLast?_eq_none_iff] at hl; rw [hl] at hmem; cases hmem
+    | some m => exact (sorted_rangeAfter h.sorted _ _).le_getLast hl x hmem
+  · subst heq
+    cases hl : (rangeAfter σ.stream σ.grp.cursor none).getLast? with
+    | none => exact idLe_refl _
+    | some m => exact idLe_of_lt (mem_rangeAfter (List.mem_of_getLast? hl)).2
+  · cases hl : (rangeAfter σ.stream σ.grp.cursor none).getLast? with
+    | none => exact idLe_of_lt hgt
+    | some m => exact idLe_of_lt (idLt_trans hgt (mem_rangeAfter (List.mem_of_getLast? hl)).2)
+
+/-- The code delivers exactly what the property prescribes — same deliveries to the same consumers in the same
+    order, same cursor — on every history whose operations avoid the deviations that are still present in the
+    tree described by `q` (see `HOp.plainFor`), for a group whose cursor starts where it should. -/
+theorem code_delivers_as_prescribed (q : Quirks) (stream : List Id) (lastId start : Id) (ops : List HOp)
+    (hq : q.startFix = true ∨ start = (0, 0)) (hops : ∀ op ∈ ops, op.plainFor q = true) :
+    (Code.run q (Code.init q stream lastId start) ops).log = (Spec.run (Spec.init stream lastId start) ops).log ∧
+    (Code.run q (Code.init q stream lastId start) ops).grp.lastDelivered =
+      (Spec.run (Spec.init stream lastId start) ops).grp.cursor := by
+  have h0 : Sim (Code.init q stream lastId start) (Spec.init stream lastId start) := by
+    refine ⟨rfl, rfl, ?_, rfl⟩
+    show (if q.startFix then start else (0, 0)) = start
+    rcases hq with hq | hq
+    · simp [hq]
+    · subst hq; split <;> rfl
+  have := sim_run q ops h0 hops
+  exact ⟨this.log, this.cursor⟩
+
+/-- FULL STATEMENT for the repaired code (`Quirks.fixed`: cursor initialised from the start id, NOACK advances,
+    explicit ids read the consumer's history): exactly-once on every history without SETID, any start position. -/
+theorem exactly_once_code_fixed (stream : List Id) (lastId start : Id) (ops : List HOp)
+    (hs : IdSorted stream) (hb : ∀ x ∈ stream, idLe x lastId = true)
+    (hops : ∀ op ∈ ops, op.noSetId = true) :
+    let σ := Code.run Quirks.fixed (Code.init Quirks.fixed stream lastId start) ops
+    IdSorted (σ.log.map (·.1)) ∧
+    (∀ d ∈ σ.log, idLt start d.1 = true) ∧
+    (∀ x ∈ σ.stream, idLt start x = true → idLe x σ.grp.lastDelivered = true → x ∈ σ.log.map (·.1)) := by
+  intro σ
+  have hplain : ∀ op ∈ ops, op.plainFor Quirks.fixed = true := by
+    intro op hop
+    have := hops op hop
+    cases op with
+    | add _ => rfl
+    | del _ => rfl
+    | g op =>
+      cases op with
+      | setid _ => cases this
+      | read c frm count noack => cases frm <;> cases noack <;> rfl
+      | _ => rfl
+  have hsim := sim_run Quirks.fixed ops (σc := Code.init Quirks.fixed stream lastId start)
+    (σs := Spec.init stream lastId start) ⟨rfl, rfl, rfl, rfl⟩ hplain
+  obtain ⟨e1, e2, e3, _⟩ := exactly_once stream lastId start ops hs hb hops
+  refine ⟨?_, ?_, ?_⟩
+  · show IdSorted ((Code.run Quirks.fixed _ ops).log.map (·.1)); rw [hsim.log]; exact e1
+  · show ∀ d ∈ (Code.run Quirks.fixed _ ops).log, _; rw [hsim.log]; exact e2
+  · show ∀ x ∈ (Code.run Quirks.fixed _ ops).stream, _ → idLe x (Code.run Quirks.fixed _ ops).grp.lastDelivered = true →
+      x ∈ (Code.run Quirks.fixed _ ops).log.map (·.1)
+    rw [hsim.log, hsim.stream, hsim.cursor]; exact e3
+
+/-- PARTIAL (the tree as pinned): exactly-once holds for groups created at 0-0 on histories without NOACK reads,
+    explicit-id reads and SETID (`HOp.plainFor Quirks.pinned`, a decidable exclusion). -/
+theorem exactly_once_partial (stream : List Id) (lastId : Id) (ops : List HOp)
+    (hs : IdSorted stream) (hb : ∀ x ∈ stream, idLe x lastId = true)
+    (hops : ∀ op ∈ ops, op.plainFor Quirks.pinned = true) :
+    let σ := Code.run Quirks.pinned (Code.init Quirks.pinned stream lastId (0, 0)) ops
+    IdSorted (σ.log.map (·.1)) ∧
+    (∀ x ∈ σ.stream, idLt (0, 0) x = true → idLe x σ.grp.lastDelivered = true → x ∈ σ.log.map (·.1)) := by
+  intro σ
+  have hsim := sim_run Quirks.pinned ops (σc := Code.init Quirks.pinned stream lastId (0, 0))
+    (σs := Spec.init stream lastId (0, 0)) ⟨rfl, rfl, rfl, rfl⟩ hops
+  have hinv : OnceInv (0, 0) (Spec.run (Spec.init stream lastId (0, 0)) ops) :=
+    onceInv_run ops (onceInv_init (0, 0) hs hb) (fun op hop => plainFor_noSetId (hops op hop))
+  refine ⟨?_, ?_⟩
+  · show IdSorted ((Code.run Quirks.pinned _ ops).log.map (·.1)); rw [hsim.log]; exact hinv.logSorted
+  · show ∀ x ∈ (Code.run Quirks.pinned _ ops).stream, _ → idLe x (Code.run Quirks.pinned _ ops).grp.lastDelivered = true →
+      x ∈ (Code.run Quirks.pinned _ ops).log.map (·.1)
+    rw [hsim.log, hsim.stream, hsim.cursor]; exact hinv.noSkip
+
+/-- WITNESS (row 21, NOACK): on the pinned tree two NOACK reads deliver 1-0 twice, to two consumers. -/
+theorem exactly_once_fails_for_noack :
+    (Code.run Quirks.pinned (Code.init Quirks.pinned [(1, 0)] (1, 0) (0, 0))
+        [.g (.read 1 none none true), .g (.read 2 none none true)]).log = [((1, 0), 1), ((1, 0), 2)] ∧
+    ¬ IdSorted ([((1, 0), 1), ((1, 0), 2)].map (fun d : Id × Name => d.1)) := by
+  constructor
+  · rfl
+  · decide
+
+/-- WITNESS (row 21, start ignored): a group created at `$` = 2-0 over the stream 1-0, 2-0 is delivered both old
+    entries by its first read; the prescribed behaviour delivers nothing. -/
+theorem exactly_once_fails_for_dollar :
+    (Code.run Quirks.pinned (Code.init Quirks.pinned [(1, 0), (2, 0)] (2, 0) (2, 0))
+        [.g (.read 1 none none false)]).log = [((1, 0), 1), ((2, 0), 1)] ∧
+    (Spec.run (Spec.init [(1, 0), (2, 0)] (2, 0) (2, 0)) [.g (.read 1 none none false)]).log = [] ∧
+    idLt (2, 0) (1, 0) = false := by
+  refine ⟨rfl, rfl, rfl⟩
+
+/-- The repaired code passes both witnesses. -/
+theorem witnesses_pass_when_fixed :
+    (Code.run Quirks.fixed (Code.init Quirks.fixed [(1, 0)] (1, 0) (0, 0))
+        [.g (.read 1 none none true), .g (.read 2 none none true)]).log = [((1, 0), 1)] ∧
+    (Code.run Quirks.fixed (Code.init Quirks.fixed [(1, 0), (2, 0)] (2, 0) (2, 0))
+        [.g (.read 1 none none false)]).log = [] := by
+  refine ⟨rfl, rfl⟩
+
+/-- WITNESS (explicit id): on the pinned tree XREADGROUP with id 0 by c1 consumes the never-delivered entry 1-0
+    (it becomes pending for c1 and the cursor moves), so `>` never delivers it. -/
+theorem explicit_id_read_consumes_new_entries :
+    (Code.run Quirks.pinned (Code.init Quirks.pinned [(1, 0)] (1, 0) (0, 0))
+        [.g (.read 1 (some (0, 0)) none false), .g (.read 2 none none false)]).log = [] ∧
+    (Code.run Quirks.pinned (Code.init Quirks.pinned [(1, 0)] (1, 0) (0, 0))
+        [.g (.read 1 (some (0, 0)) none false)]).grp.lastDelivered = (1, 0) := by
+  refine ⟨rfl, rfl⟩
+
+/-! ### 3. XACK, XCLAIM, XPENDING, administration -/
+
+/-- XACK on any state whose `entries_by_id` is a map (strictly sorted keys — in particular every agreeing state):
+    the reply is the number of pending rows whose id occurs in the argument list — each counted once however often
+    it is repeated, unknown ids counting nothing — and exactly those rows are removed; the cursor is untouched. -/
+theorem xack_counts_once (g : Group) (hs : Sorted g.byId) (ids : List Id) :
+    (Code.acknowledge g ids).2 = (g.byId.filter (fun e => ids.contains e.id)).length ∧
+    (Code.acknowledge g ids).1.byId = g.byId.filter (fun e => !ids.contains e.id) ∧
+    Grp.abs (Code.acknowledge g ids).1 = (Spec.ack (Grp.abs g) ids).1 ∧
+    (Code.acknowledge g ids).2 = (Spec.ack (Grp.abs g) ids).2 := by
+  obtain ⟨h1, h2⟩ := ackLoop_byId g ids 0 hs
+  obtain ⟨h3, h4⟩ := acknowledge_refines g ids hs
+  refine ⟨?_, h1, h3, h4⟩
+  show (Code.ackLoop g ids 0).2 = _
+  rw [h2, Nat.zero_add]
+
+/-- Acknowledging twice acknowledges nothing the second time. -/
+theorem xack_idempotent (g : Group) (h : Agree g) (ids : List Id) :
+    (Code.acknowledge (Code.acknowledge g ids).1 ids).2 = 0 := by
+  have h' := agree_acknowledge h ids
+  rw [(xack_counts_once _ h'.sorted ids).1, (xack_counts_once g h.sorted ids).2.1]
+  rw [List.filter_filter, List.length_eq_zero_iff, List.filter_eq_nil_iff]
+  intro e _
+  cases ids.contains e.id <;> simp
+
+/-- XCLAIM: on every state, the pending set after the claim is the old one with every listed pending id now owned
+    by the claimer (when the idle test passes; unchanged otherwise), the reply lists exactly the listed ids that
+    were pending, the cursor is untouched — and on agreeing states all representations follow (the ids leave their
+    previous owners' vectors and counters and enter the claimer's). -/
+theorem xclaim_moves (g : Group) (c : Name) (elig : Bool) (ids : List Id) :
+    Grp.abs (Code.claim g c elig ids).1 = (Spec.claim (Grp.abs g) c elig ids).1 ∧
+    (Code.claim g c elig ids).2 = (Spec.claim (Grp.abs g) c elig ids).2 ∧
+    (Agree g → Agree (Code.claim g c elig ids).1) :=
+  ⟨(claim_refines g c elig ids).1, (claim_refines g c elig ids).2, fun h => agree_claim h c elig ids⟩
+
+/-- XPENDING summary on agreeing states equals the actual pending set: the total is the number of pending rows, the
+    bounds are the smallest and largest pending id, and the per-consumer rows are exactly the owners with the
+    number of rows they own (consumers owning nothing are not listed). -/
+theorem xpending_equals_actual (g : Group) (h : Agree g) :
+    ∃ rows, Code.pendingInfo g = .summary (Grp.abs g).pending.length ((Grp.abs g).pending.head?.map (·.1))
+        ((Grp.abs g).pending.getLast?.map (·.1)) rows ∧
+      ∀ c n, (c, n) ∈ rows ↔
+        (c, n) ∈ ((Grp.abs g).pending.map (·.2)).eraseDups.map (fun c => (c, Spec.countOf (Grp.abs g).pending c)) := by
+  refine ⟨g.consumers.filter (fun p => p.2 > 0), ?_, ?_⟩
+  · simp only [Code.pendingInfo, Grp.abs, List.length_map, List.head?_map, List.getLast?_map, h.bmin, h.bmax,
+      Option.map_map]
+    rfl
+  · intro c n
+    rw [pendingInfo_rows h.toAgreeCore, specInfo_rows]
+
+/-- XPENDING with a range and no consumer filter, when the range is not reversed: the code returns exactly the
+    pending rows with `s ≤ id ≤ e`, in id order, at most `count` — the same rows the property prescribes. -/
+theorem xpending_range_equals_actual (q : Quirks) (g : Group) (s e : Option Id) (count : Nat)
+    (hse : ∀ lo hi, s = some lo → e = some hi → idLe lo hi = true) :
+    Code.pendingRange q g s e count none =
+      .entries (((g.byId.filter (fun x => inRange s e x.id)).take count).map Code.showEntry) ∧
+    Spec.pendingRange (Grp.abs g) s e count none =
+      .entries (((g.byId.filter (fun x => inRange s e x.id)).take count).map (fun x => (x.id, x.owner, 0))) := by
+  have hlo : ∀ x : Id, idLe (0, 0) x = true := by
+    intro x; rw [idLe_iff, idLt_iff]
+    rcases x with ⟨a, b⟩
+    simp only [Prod.mk.injEq]; omega
+  constructor
+  · cases e with
+    | none => cases s <;> simp [Code.pendingRange, inRange, hlo]
+    | some hi =>
+      cases s with
+      | none =>
+        have : idLt hi (0, 0) = false := by
+          cases h : idLt hi (0, 0) with
+          | false => rfl
+          | true => rw [idLt_iff] at h; simp at h
+        simp [Code.pendingRange, inRange, hlo, this]
+      | some lo =>
+        have : idLt hi lo = false := not_idLt_iff.mpr (hse lo hi rfl rfl)
+        simp [Code.pendingRange, inRange, this]
+  · simp only [Spec.pendingRange, Grp.abs, Bool.and_true, List.filter_map, ← List.map_take, List.map_map]
+    rfl
+
+/-- WITNESS (defect 35): a reversed range on a group that has ever held a pending entry panics on the pinned
+    tree; with the repair it is the empty list, as prescribed. -/
+theorem xpending_range_panics_when_reversed :
+    let g := Code.addPending (Code.newGroup Quirks.pinned (0, 0)) 1 [(1, 0)]
+    Code.pendingRange Quirks.pinned g (some (5, 0)) (some (1, 0)) 10 none = .panic ∧
+    Code.pendingRange Quirks.fixed g (some (5, 0)) (some (1, 0)) 10 none = .entries [] ∧
+    Spec.pendingRange (Grp.abs g) (some (5, 0)) (some (1, 0)) 10 none = .entries [] := by
+  refine ⟨rfl, rfl, rfl⟩
+
+/-- WITNESS (new finding): with a consumer filter the code ignores the range: c1 owns 1-0 and 2-0, the range
+    2-0..2-0 should list 2-0 only. -/
+theorem xpending_consumer_filter_ignores_range :
+    let g := Code.addPending (Code.newGroup Quirks.pinned (0, 0)) 1 [(1, 0), (2, 0)]
+    Code.pendingRange Quirks.pinned g (some (2, 0)) (some (2, 0)) 10 (some 1) = .entries [((1, 0), 1, 1), ((2, 0), 1, 1)] ∧
+    Spec.pendingRange (Grp.abs g) (some (2, 0)) (some (2, 0)) 10 (some 1) = .entries [((2, 0), 1, 0)] := by
+  refine ⟨rfl, rfl⟩
+
+/-- XGROUP DELCONSUMER on agreeing states: the reply is the number of rows the consumer owned, exactly those rows
+    leave the pending set, the consumer disappears, the cursor is untouched. -/
+theorem delconsumer_effect (g : Group) (h : Agree g) (c : Name) :
+    Grp.abs (Code.deleteConsumer g c).1 = (Spec.delConsumer (Grp.abs g) c).1 ∧
+    (Code.deleteConsumer g c).2 = (Spec.delConsumer (Grp.abs g) c).2 ∧
+    alGet c (Code.deleteConsumer g c).1.consumers = none := by
+  unfold Code.deleteConsumer
+  cases hc : alGet c g.consumers with
+  | none =>
+    -- not a consumer: owns nothing
+    have hnone : ∀ e ∈ g.byId, e.owner ≠ c := by
+      intro e he ho
+      obtain ⟨l, _, _, _, hcn⟩ := h.toAgreeCore.owner_facts he
+      rw [ho, hc] at hcn; cases hcn
+    refine ⟨?_, ?_, hc⟩
+    · simp only [Grp.abs, Spec.delConsumer, List.filter_map]
+      congr 1
+      rw [List.filter_eq_self.mpr]
+      intro e he; simp [hnone e he]
+    · simp only [Grp.abs, Spec.delConsumer, List.filter_map, List.length_map]
+      symm; rw [List.length_eq_zero_iff, List.filter_eq_nil_iff]
+      intro e he; simp [hnone e he]
+  | some n =>
+    simp only [Code.removeConsumerEntries]
+    cases hl : alGet c g.byConsumer with
+    | none =>
+      have hnone : ∀ e ∈ g.byId, e.owner ≠ c := by
+        intro e he ho
+        obtain ⟨l, hl', _, _, _⟩ := h.toAgreeCore.owner_facts he
+        rw [ho, hl] at hl'; cases hl'
+      refine ⟨?_, ?_, by simp [alGet_alErase]⟩
+      · simp only [Grp.abs, Spec.delConsumer, List.filter_map]
+        congr 1
+        rw [List.filter_eq_self.mpr]
+        intro e he; simp [hnone e he]
+      · simp only [Grp.abs, Spec.delConsumer, List.filter_map, List.length_map]
+        symm; rw [List.length_eq_zero_iff, List.filter_eq_nil_iff]
+        intro e he; simp [hnone e he]
+    | some l =>
+      have hmemId : ∀ e ∈ g.byId, (e.id ∈ l ↔ e.owner = c) := by
+        intro e he
+        constructor
+        · intro hin
+          obtain ⟨e', he', hid', ho'⟩ := h.toAgreeCore.vec_owner hl hin
+          rw [← sorted_unique h.sorted he' he hid']; exact ho'
+        · intro ho
+          obtain ⟨l', hl', hidl', _, _⟩ := h.toAgreeCore.owner_facts he
+          rw [ho, hl] at hl'; cases hl'; exact hidl'
+      refine ⟨?_, ?_, by simp [Code.updateBounds, alGet_alErase]⟩
+      · simp only [Grp.abs, Spec.delConsumer, Code.updateBounds, List.filter_map]
+        congr 2
+        apply List.filter_congr
+        intro e he
+        by_cases ho : e.owner = c
+        · simp [ho, (hmemId e he).mpr ho]
+        · have : e.id ∉ l := fun hin => ho ((hmemId e he).mp hin)
+          simp [ho, this]
+      · simp only [Grp.abs, Spec.delConsumer, List.filter_map, List.length_map]
+        exact h.toAgreeCore.vec_length hl
+
+/-- XGROUP SETID moves the cursor and nothing else; CREATECONSUMER changes no pending entry and no cursor. -/
+theorem setid_createconsumer_effect (g : Group) (id : Id) (c : Name) :
+    Grp.abs (Code.setId g id) = { Grp.abs g with cursor := id } ∧
+    (Code.setId g id).byConsumer = g.byConsumer ∧ (Code.setId g id).consumers = g.consumers ∧
+    (Code.setId g id).totalPending = g.totalPending ∧
+    Grp.abs (Code.createConsumer g c) = Grp.abs g :=
+  ⟨rfl, rfl, rfl, rfl, rfl⟩
+
+/-- XGROUP CREATE on the repaired tree: the new group has the requested cursor and nothing pending; a second CREATE
+    is refused (BUSYGROUP) and changes nothing; DESTROY removes exactly that group. -/
+theorem create_destroy_effect (s : St) (gname : Name) (start : Id) (h : alGet gname s.groups = none) :
+    let s1 := (St.create Quirks.fixed s gname start).1
+    (alGet gname s1.groups).map Grp.abs = some (Spec.newGroup start) ∧
+    St.create Quirks.fixed s1 gname start = (s1, .busy) ∧
+    alGet gname (St.destroy s1 gname).1.groups = none ∧
+    (∀ other, other ≠ gname → alGet other s1.groups = alGet other s.groups ∧
+        alGet other (St.destroy s1 gname).1.groups = alGet other s.groups) ∧
+    s1.stream = s.stream := by
+  have e1 : (St.create Quirks.fixed s gname start).1 =
+      { s with groups := alSet gname (Code.newGroup Quirks.fixed start) s.groups } := by
+    simp [St.create, h]
+  have hget : alGet gname (alSet gname (Code.newGroup Quirks.fixed start) s.groups) =
+      some (Code.newGroup Quirks.fixed start) := by rw [alGet_alSet]; simp
+  intro s1
+  have hs1 : s1 = { s with groups := alSet gname (Code.newGroup Quirks.fixed start) s.groups } := e1
+  refine ⟨?_, ?_, ?_, ?_, ?_⟩
+  · rw [hs1]; simp only [hget]; rfl
+  · rw [hs1]; simp [St.create, hget]
+  · rw [hs1]; simp [St.destroy, hget, alGet_alErase]
+  · intro other hne
+    rw [hs1]
+    refine ⟨by simp [alGet_alSet, Ne.symm hne], ?_⟩
+    simp [St.destroy, hget, alGet_alErase, alGet_alSet, Ne.symm hne]
+  · rw [hs1]
+
+/-- WITNESS (row 21, start ignored), at the level of XGROUP CREATE: on the pinned tree the cursor of a new group is
+    0-0 whatever start id was asked for. -/
+theorem create_ignores_start_when_pinned (start : Id) :
+    (Code.newGroup Quirks.pinned start).lastDelivered = (0, 0) ∧
+    (Code.newGroup Quirks.fixed start).lastDelivered = start := ⟨rfl, rfl⟩
+
+/-- "These effects and no others": an operation on one group changes neither the stream nor any other group. -/
+theorem group_ops_isolated (q : Quirks) (s : St) (gname other : Name) (op : GOp) (hne : other ≠ gname) :
+    alGet other (St.gop q s gname op).1.groups = alGet other s.groups ∧
+    (St.gop q s gname op).1.stream = s.stream ∧ (St.gop q s gname op).1.lastId = s.lastId := by
+  unfold St.gop
+  cases alGet gname s.groups with
+  | none => exact ⟨rfl, rfl, rfl⟩
+  | some grp => exact ⟨by simp [alGet_alSet, Ne.symm hne], rfl, rfl⟩
+
+/-! ### Non-vacuity: concrete non-trivial instances of the hypotheses -/
+
+/-- an agreeing state with two consumers, three pending rows, reached by real operations -/
+example : Agree (Code.claim (Code.addPending (Code.addPending (Code.newGroup Quirks.pinned (0, 0)) 1 [(1, 0), (2, 0)]) 2 [(3, 0)])
+    2 true [(1, 0)]).1 := by
+  rw [← agreeB_iff]; decide
+example : IdSorted [(1, 0), (1, 1), (3, 0)] ∧ ∀ x ∈ [((1, 0) : Id), (1, 1), (3, 0)], idLe x (3, 0) = true := by decide
+example : ∀ op ∈ [HOp.add (4, 0), .del [(1, 0)], .g (.read 1 none (some 2) false), .g (.ack [(1, 0), (1, 0), (9, 9)]),
+    .g (.claim 2 true [(2, 0)]), .g (.delc 1), .g (.read 3 none none false)], op.plainFor Quirks.pinned = true := by decide
+example : (Code.run Quirks.pinned (Code.init Quirks.pinned [(1, 0), (2, 0), (3, 0)] (3, 0) (0, 0))
+    [.g (.read 1 none (some 2) false), .add (4, 0), .g (.read 2 none none false)]).log =
+    [((1, 0), 1), ((2, 0), 1), ((3, 0), 2), ((4, 0), 2)] := by rfl
+example : (Code.acknowledge (Code.addPending (Code.newGroup Quirks.pinned (0, 0)) 1 [(1, 0), (2, 0)]) [(1, 0), (1, 0), (9, 9)]).2 = 1 := by rfl
+
 end Ferrous.C16
